@@ -320,18 +320,21 @@ func (db *TempPool) OperationHashes(
 				return true, nil
 			}
 
-			// NOTE filter duplicated fact; last one will be selected
+			// NOTE filter duplicated fact; last one will be selected and the
+			// previous one is removed.
 			if prev, found := facts[meta.Fact().String()]; found {
-				removeops[removeopsindex] = meta.Operation()
+				removeops[removeopsindex] = ops[prev][0]
 				removeopsindex++
 
-				nops := make([][2]util.Hash, len(ops))
-				copy(nops, ops[:prev])
-				copy(nops[prev:], ops[prev+1:])
-
-				ops = nops
+				copy(ops[prev:], ops[prev+1:opsindex])
 
 				opsindex--
+
+				for k, v := range facts {
+					if v > prev {
+						facts[k] = v - 1
+					}
+				}
 			}
 
 			ops[opsindex] = [2]util.Hash{meta.Operation(), meta.Fact()}
